@@ -7,10 +7,12 @@ import (
 	"runtime"
 	"strings"
 	"sync"
+	"sync/atomic"
 	"syscall"
 	"time"
 
 	"github.com/criyle/go-sandbox/container"
+	"github.com/criyle/go-sandbox/pkg/forkexec"
 	"github.com/criyle/go-sandbox/pkg/unixsocket"
 )
 
@@ -141,6 +143,103 @@ func runC19(res *Result, d *Driver, tier string, seed uint64) {
 		}
 		a.Close()
 		b.Close()
+	}
+
+	// ---- close-on-exec ON ARRIVAL: programs are launched by other goroutines of the receiving process while messages
+	// that carry many descriptors are being received; no launched program may find one of those files open ----
+	{
+		tf, err := os.CreateTemp("", "verif-c19-arrival-")
+		if err != nil {
+			fatal("tmp: %v", err)
+		}
+		defer os.Remove(tf.Name())
+		defer tf.Close()
+		var tst syscall.Stat_t
+		syscall.Fstat(int(tf.Fd()), &tst)
+		a, b, err := unixsocket.NewSocketPair()
+		if err != nil {
+			fatal("socketpair: %v", err)
+		}
+		stop := make(chan struct{})
+		var wg sync.WaitGroup
+		var received int64
+		wg.Add(2)
+		go func() { // sender: one message in flight at a time
+			defer wg.Done()
+			fds := make([]int, 200)
+			for i := range fds {
+				fds[i] = int(tf.Fd())
+			}
+			for {
+				select {
+				case <-stop:
+					return
+				default:
+				}
+				if a.SendMsg([]byte("m"), unixsocket.Msg{Fds: fds}) != nil {
+					return
+				}
+				for atomic.LoadInt64(&received)%2 == 0 {
+					select {
+					case <-stop:
+						return
+					default:
+						runtime.Gosched()
+					}
+				}
+				atomic.AddInt64(&received, 1)
+			}
+		}()
+		go func() { // receiver
+			defer wg.Done()
+			buf := make([]byte, 16)
+			for {
+				b.SetReadDeadline(time.Now().Add(200 * time.Millisecond))
+				_, msg, rerr := b.RecvMsg(buf)
+				if rerr == nil {
+					for _, fd := range msg.Fds {
+						syscall.Close(fd)
+					}
+					atomic.AddInt64(&received, 1)
+				}
+				select {
+				case <-stop:
+					return
+				default:
+				}
+			}
+		}()
+		nL := 60
+		if tier == "thorough" {
+			nL = 600
+		}
+		rdir, _ := os.MkdirTemp("", "verif-c19-rep-")
+		defer os.RemoveAll(rdir)
+		pf := openProbe()
+		devnull2, _ := os.Open(os.DevNull)
+		want := fmt.Sprintf("%d.%d", tst.Dev, tst.Ino)
+		for it := 0; it < nL; it++ {
+			report := fmt.Sprintf("%s/r%d", rdir, it)
+			r := &forkexec.Runner{Args: []string{"probe", "report fds " + report + ";exit 0"}, Env: []string{}, ExecFile: pf.Fd(), Files: []uintptr{devnull2.Fd(), devnull2.Fd(), devnull2.Fd()}}
+			pid, err := r.Start()
+			var ws syscall.WaitStatus
+			if err == nil {
+				syscall.Wait4(pid, &ws, 0, nil)
+			}
+			res.Case("arrival "+itoa(it), true, "cloexec-on-arrival")
+			data, _ := os.ReadFile(report)
+			os.Remove(report)
+			if strings.Contains(string(data), ":"+want+":") {
+				res.Mismatch(Mismatch{Kind: "oracle", What: "descriptors received with a message are close-on-exec on arrival: a program launched by another goroutine while messages are being received must not inherit them (C19)", Input: fmt.Sprintf("program %d of %d launched while messages of 200 descriptors are received on a socket pair (%d messages so far)", it, nL, atomic.LoadInt64(&received)/2), Impl: "the program has the file of the messages open: " + strings.TrimSpace(string(data))[:min(len(strings.TrimSpace(string(data))), 300)], Oracle: "violates"})
+				break
+			}
+		}
+		pf.Close()
+		devnull2.Close()
+		close(stop)
+		a.Close()
+		b.Close()
+		wg.Wait()
 	}
 
 	// ---- a receiver that keeps what it received: several messages with descriptors are received one after the other on
